@@ -18,12 +18,44 @@ fn buf_max() -> usize { const_expr("const MAX_BUFFER_LEN: usize = ", ';') }
 struct Script<'a> { data: &'a [u8], pos: usize, seg: usize, calls: usize, fail_at: Option<usize>, kind: io::ErrorKind, sticky: bool }
 impl<'a> Read for Script<'a> {
     fn read(&mut self, buf: &mut [u8]) -> io::Result<usize> {
+        beat(); if self.calls == 0 { note_wire(self.data); }
         let c = self.calls; self.calls += 1;
         if let Some(f) = self.fail_at { if c == f || (self.sticky && c > f) { return Err(self.kind.into()); } }
         let n = buf.len().min(self.seg).min(self.data.len() - self.pos);
         buf[..n].copy_from_slice(&self.data[self.pos..self.pos + n]);
         self.pos += n;
         Ok(n)
+    }
+}
+// ---- watchdog: a reader that spins without reading (non-termination on a finite input) must fail the check, not hang it.
+// Every read of the scripted transports is a heartbeat; a test body runs on its own thread and the test fails when the
+// heartbeat stops for STALL_SECS while the body has not finished.
+const STALL_SECS: u64 = 20;
+struct Beat { n: std::sync::atomic::AtomicU64, last: std::sync::Mutex<Vec<u8>> }
+thread_local! { static BEAT: std::cell::RefCell<Option<std::sync::Arc<Beat>>> = std::cell::RefCell::new(None); }
+fn beat() { BEAT.with(|b| if let Some(b) = &*b.borrow() { b.n.fetch_add(1, std::sync::atomic::Ordering::Relaxed); }) }
+fn note_wire(w: &[u8]) { BEAT.with(|b| if let Some(b) = &*b.borrow() { let mut l = b.last.lock().unwrap(); l.clear(); l.extend_from_slice(&w[..w.len().min(80)]); }) }
+fn watched(body: fn()) {
+    let b = std::sync::Arc::new(Beat { n: std::sync::atomic::AtomicU64::new(0), last: std::sync::Mutex::new(Vec::new()) });
+    let b2 = b.clone();
+    let (tx, rx) = std::sync::mpsc::channel();
+    std::thread::Builder::new().stack_size(16 << 20).spawn(move || {
+        BEAT.with(|x| *x.borrow_mut() = Some(b2));
+        let r = std::panic::catch_unwind(body);
+        let _ = tx.send(r);
+    }).unwrap();
+    let (mut last, mut idle) = (u64::MAX, 0u64);
+    loop {
+        match rx.recv_timeout(std::time::Duration::from_secs(1)) {
+            Ok(Ok(())) => return,
+            Ok(Err(p)) => std::panic::resume_unwind(p),
+            Err(std::sync::mpsc::RecvTimeoutError::Timeout) => {
+                let now = b.n.load(std::sync::atomic::Ordering::Relaxed);
+                if now == last { idle += 1; } else { idle = 0; last = now; }
+                if idle >= STALL_SECS { panic!("the reader made no read for {} s and did not return (non-termination); start of the input being read: {:?}", STALL_SECS, String::from_utf8_lossy(&b.last.lock().unwrap())); }
+            }
+            Err(_) => panic!("the check's body thread vanished"),
+        }
     }
 }
 fn reader<'a>(data: &'a [u8], seg: usize) -> ChunkedReader<Script<'a>> {
@@ -91,7 +123,8 @@ fn drain<R: Read>(r: &mut ChunkedReader<R>, sizes: &[usize], max_calls: usize) -
 
 /// C01: well-formed bodies are delivered exactly, for chunkings x size-line styles x trailing garbage x segmentations x read sizes
 #[test]
-fn vp_native_chunked_wellformed_delivered_exactly() {
+fn vp_native_chunked_wellformed_delivered_exactly() { watched(vp_native_chunked_wellformed_delivered_exactly_body); }
+fn vp_native_chunked_wellformed_delivered_exactly_body() {
     let alphabet: [&[u8]; 4] = [b"a", b"\r\n", b"0\r\n\r\n", b"xyz"];
     let mut cases = 0u64;
     let maxchunks = if std::env::var("VP_TIER").as_deref() == Ok("thorough") { 4usize } else { 3 };
@@ -124,7 +157,8 @@ fn vp_native_chunked_wellformed_delivered_exactly() {
 
 /// C01 around the 64 KiB internal buffer: single big chunks x read schedules mixing tiny and huge buffers
 #[test]
-fn vp_native_chunked_big_chunks_any_read_schedule() {
+fn vp_native_chunked_big_chunks_any_read_schedule() { watched(vp_native_chunked_big_chunks_any_read_schedule_body); }
+fn vp_native_chunked_big_chunks_any_read_schedule_body() {
     let mut cases = 0u64;
     for len in [65535usize, 65536, 65537, 131072, 200 * 1024] {
         let payload: Vec<u8> = (0..len).map(|i| (i * 7 + i / 251) as u8).collect();
@@ -146,7 +180,8 @@ fn vp_native_chunked_big_chunks_any_read_schedule() {
 /// C02: every truncation, every single-byte corruption of framing bytes, every fault position x kind, with further reads after
 /// the error: what was handed out is always a prefix of what the wire really encodes, and no clean end before an error
 #[test]
-fn vp_native_chunked_truncation_corruption_faults() {
+fn vp_native_chunked_truncation_corruption_faults() { watched(vp_native_chunked_truncation_corruption_faults_body); }
+fn vp_native_chunked_truncation_corruption_faults_body() {
     let bases: Vec<Vec<u8>> = vec![
         encode(&[b"0123456789", b"ab"], 0),
         encode(&[b"\r\n0\r\n", b"x"], 1),
@@ -195,6 +230,7 @@ fn vp_native_chunked_truncation_corruption_faults() {
 struct EndsWith<'a> { data: &'a [u8], pos: usize, seg: usize, end: Option<io::ErrorKind> }
 impl<'a> Read for EndsWith<'a> {
     fn read(&mut self, buf: &mut [u8]) -> io::Result<usize> {
+        beat(); if self.pos == 0 { note_wire(self.data); }
         if self.pos == self.data.len() { return match self.end { Some(k) => Err(k.into()), None => Ok(0) }; }
         let n = buf.len().min(self.seg).min(self.data.len() - self.pos);
         buf[..n].copy_from_slice(&self.data[self.pos..self.pos + n]);
@@ -206,7 +242,8 @@ impl<'a> Read for EndsWith<'a> {
 /// or before the last chunk (by end-of-file, a reset or a timed-out read), read with buffers from 1 byte to several windows:
 /// the body never ends cleanly, and what was handed out is a prefix of the payload, also over further reads after the error
 #[test]
-fn vp_native_chunked_big_chunks_truncated() {
+fn vp_native_chunked_big_chunks_truncated() { watched(vp_native_chunked_big_chunks_truncated_body); }
+fn vp_native_chunked_big_chunks_truncated_body() {
     let mut cases = 0u64;
     for len in [65537usize, 131072, 200 * 1024, 1 << 20] {
         let payload: Vec<u8> = (0..len).map(|i| (i * 13 + i / 255) as u8).collect();
@@ -242,7 +279,8 @@ fn vp_native_chunked_big_chunks_truncated() {
 /// C05: every byte string over a framing alphabet up to length 6, and size-line edge cases (huge numbers, long and endless lines):
 /// no panic, and reading ends (Ok(0) or an error) within a bounded number of calls
 #[test]
-fn vp_native_chunked_hostile_inputs_terminate() {
+fn vp_native_chunked_hostile_inputs_terminate() { watched(vp_native_chunked_hostile_inputs_terminate_body); }
+fn vp_native_chunked_hostile_inputs_terminate_body() {
     let mut cases = 0u64;
     let depth = if std::env::var("VP_TIER").as_deref() == Ok("thorough") { 7 } else { 6 };
     for wire in hostile_wires(depth) { let mut r = reader(&wire, 2); let _ = drain(&mut r, &[3], 100); cases += 1; }
@@ -285,7 +323,8 @@ fn special_wires() -> Vec<Vec<u8>> {
 /// C02 on the same hostile wires: what is delivered is a prefix of what the wire frames (spec `fut`), a clean end only when the
 /// framing is complete; a chunk-size line longer than the client's own limit may be refused or accepted
 #[test]
-fn vp_native_chunked_hostile_inputs_match_spec() {
+fn vp_native_chunked_hostile_inputs_match_spec() { watched(vp_native_chunked_hostile_inputs_match_spec_body); }
+fn vp_native_chunked_hostile_inputs_match_spec_body() {
     let mut cases = 0u64;
     let depth = if std::env::var("VP_TIER").as_deref() == Ok("thorough") { 7 } else { 6 };
     for wire in hostile_wires(depth) {
@@ -314,7 +353,8 @@ fn vp_native_chunked_hostile_inputs_match_spec() {
 /// C05: a chunk-size line without end is given up after a bounded amount of input (the line limit plus what the buffers read
 /// ahead), with or without a `;`, whatever precedes it
 #[test]
-fn vp_native_chunked_size_line_input_bound() {
+fn vp_native_chunked_size_line_input_bound() { watched(vp_native_chunked_size_line_input_bound_body); }
+fn vp_native_chunked_size_line_input_bound_body() {
     let mut cases = 0u64;
     for prefix in [&b""[..], b"5\r\nhello\r\n"] { for start in [&b"5;"[..], b"5", b"5 ;ext=", b";", b"0;", b"ffff;x=\"q"] { for n in [300usize, 70_000, 3_000_000] { for seg in [1usize, 64, 100_000] {
         if seg == 1 && n > 70_000 { continue; }
@@ -332,7 +372,8 @@ fn vp_native_chunked_size_line_input_bound() {
 /// C19: the data of every chunk that has arrived completely (including its line break) can be read before the reader ever asks
 /// for bytes the server has not sent: the transport here answers WouldBlock ("server paused indefinitely") once the prefix is used up
 #[test]
-fn vp_native_chunked_data_delivered_as_it_arrives() {
+fn vp_native_chunked_data_delivered_as_it_arrives() { watched(vp_native_chunked_data_delivered_as_it_arrives_body); }
+fn vp_native_chunked_data_delivered_as_it_arrives_body() {
     let sizes = [1usize, 5, 65535, 65536, 65537, 131072];
     let mut cases = 0u64;
     for &a in &sizes { for &b in &[3usize, 65536] {
